@@ -5,12 +5,6 @@ import PexpectModel.Drv.Common
 namespace Drv.SessionD
 open Sess Cd Drv
 
-def mapEnc (f : Nat → List Byte) : IncEncoder Unit where
-  init := ()
-  feed := fun s a => (s, a.flatMap f)
-  law := by intro s a b; simp
-  nil := by intro s; rfl
-
 def parseOp1 (s : String) : Option Op :=
   match s.splitOn "=" with
   | ["R", h] => some (.read (decList h))
